@@ -515,6 +515,7 @@ class Generated:
         self.functions = []  # functions under contract
         self.trusted = []  # trusted markers found
         self.finding_tags = set()
+        self.loop_counts = {}
 
     def add(self, text, origin):
         for k, ln in enumerate(text.split("\n")):
@@ -850,6 +851,16 @@ def emit_fn(gen, sf, it, opts, blk, what, in_trait_impl, variant):
         body_line0 = src_line0 + sig.rstrip().count("\n") + (sig.count("\n") - sig.rstrip().count("\n"))
         # where does the body start in the source? line of its `{`
         body_src_line0 = src_line0 + sig.count("\n")
+        if variant == "canary-loop":
+            # reachability canary at the end of every loop body (a contradictory invariant or stub contract inside a
+            # loop would otherwise go unnoticed: the function-level canaries only see the code outside loops)
+            offs = loops_in(body)
+            mb = mask(body)
+            n_loops = 0
+            for e in sorted((match_close(mb, o) for o in offs), reverse=True):
+                body = body[:e] + " assert(false); /*CANARY-LOOP*/ " + body[e:]
+                n_loops += 1
+            gen.loop_counts[what] = n_loops
         if variant == "canary-start":
             body = body[0] + " " + CANARY_START + body[1:]
         elif variant == "canary-end":
